@@ -33,12 +33,15 @@ Definition check (c : mcase) : bool :=
    end)
   && (match rest with [] => true | _ => false end)
   (* the source is valid at its version in the model's sense too *)
-  && (negb (mc_valid_src c) || valid_source (mc_in c))
+  && (negb (mc_valid_src c) || valid_source_full false (mc_in c))
   (* the model's restatement of the reader's checks agrees with the reader on the output *)
   && (match mc_reads c, mc_out c with
-      | Some b, Some out => Bool.eqb (valid_current out) b
+      | Some b, Some out => Bool.eqb (valid_current_full out) b
       | _, _ => true
-      end).
+      end)
+  (* the hypothesis of c16_valid_after_partial on the refactoring function holds of refactor.Template on every text
+     of this definition it changes (on the others it is the identity) *)
+  && forallb (fun kv : str * str => tx_keeps_on (rename_lookup (mc_rename c)) (fst kv)) (mc_rename c).
 
 Fixpoint mismatches_from {A : Type} (chk : A -> bool) (i : N) (ks : list A) : list N :=
   match ks with
@@ -52,7 +55,7 @@ Record rcase := {
   rc_reads : bool
 }.
 
-Definition check_read (c : rcase) : bool := Bool.eqb (valid_current (rc_in c)) (rc_reads c).
+Definition check_read (c : rcase) : bool := Bool.eqb (valid_current_full (rc_in c)) (rc_reads c).
 
 (* a legacy definition and the graph of what the implementation made of it *)
 Record lcase := {
